@@ -222,3 +222,13 @@ Example C07_nonvacuous_no_stored :
   equal_encoding ideal_orc 5 (PInt false 1) (PFloat false (FNum 1 0)) = true /\
   flush_cell ideal_orc 5 (recompute_cell ideal_orc (PInt false 1) (PBool true)) = Some (PBool true).
 Proof. split; vm_compute; reflexivity. Qed.
+
+(* A NaN inside a container (a formula of an Any column returning [float('nan')]): Python's == on the two encodings
+   ['L', nan] compares the NaN items, which are distinct objects after a load (and after every recalculation), so
+   equal_encoding says "changed" although the encodings are the same data: the hypothesis py_eq e e of
+   C07_reloaded_cell_quiet_partial fails and the cell is stored again with the value it has. *)
+Example C07_refuted_nan_in_container :
+  let v := PList LPlain [PFloat false FNan] in
+  py_eq ideal_orc (encode_f ideal_orc 5 v) (encode_f ideal_orc 5 v) = false /\
+  flush_cell ideal_orc 5 (recompute_cell ideal_orc v v) = Some v.
+Proof. split; vm_compute; reflexivity. Qed.
